@@ -172,7 +172,27 @@ impl Compiler {
     }
 
     /// Compiles the given AST into executable Bytecode
+    /// If this fails, the compiler is left in the state it was in before the call
     pub fn compile_ast(&mut self, ast: &BlockStmt) -> Result<Bytecode, Error> {
+        let symbols = self.symbols.clone();
+        let result = self.compile_ast_inner(ast);
+
+        if result.is_err() {
+            // throw away everything the failed compilation left behind
+            self.symbols = symbols;
+            self.instructions.clear();
+            self.loop_contexts.clear();
+            self.last_instruction = None;
+
+            // this frees the constants that were created (they are not handed over to anyone)
+            self.constants.clear();
+            self.gc.destroy();
+        }
+
+        result
+    }
+
+    fn compile_ast_inner(&mut self, ast: &BlockStmt) -> Result<Bytecode, Error> {
         // Call compile_statement on each child node directly
         // We don't re-use compile_block_statement here because it exits the global scope
         for s in ast {
